@@ -118,6 +118,8 @@ ACTION_LISTS = [
     [("defer", "B"), ("recall",)],
     [("recall",), ("scribble", "scrib-2")],
     [("defer", "A"), ("defer", "B"), ("recall",), ("post_lifo", "C")],
+    [("current_state",)],
+    [("scribble", "before"), ("current_state",), ("post_fifo", "B")],
 ]
 
 
